@@ -411,7 +411,9 @@ class InheritableSQLObject(SQLObject):
         # TC: the parent if the child can not be created.
         try:
             super(InheritableSQLObject, self)._create(id, **kw)
-        except Exception:
+        except BaseException:
+            # (also KeyboardInterrupt and the like: the parent row must
+            # not be left without its child)
             # If we are outside a transaction and this is a child,
             # destroy the parent
             connection = self._connection
